@@ -159,6 +159,11 @@ func (hr *historyRepository) recordMiniblock(blockHeaderHash []byte, blockHeader
 		return nil
 	}
 
+	// the metadata record is also read, patched and written back by the consumer of the notarization notifications,
+	// which runs on other goroutines: the two read-modify-write sequences must not interleave
+	hr.consumePendingNotificationsMutex.Lock()
+	defer hr.consumePendingNotificationsMutex.Unlock()
+
 	// the miniblock might have been recorded before, as part of a block that was dropped in the meantime.
 	// This has to be read before saving the new epoch of the miniblock
 	previousMetadata, errPrevious := hr.getMiniblockMetadataByMiniblockHash(miniblockHash)
